@@ -6,6 +6,10 @@ ud = os.path.join(VERIF, "units", u)
 cfg = json.load(open(os.path.join(ud, "unit.json")))
 os.makedirs(os.path.join(VERIF, "out"), exist_ok=True)
 ex = run_extract(os.environ.get("VX_REPO","/repo"), cfg["feature_sets"][0], cfg["items"], os.path.join(VERIF, "out"))
+try:
+    pass
+except Exception:
+    pass
 A = assemble_unit(u, ud, cfg, ex, [os.path.join(VERIF, "prelude", p) for p in cfg["prelude"]], canary="--canary" in sys.argv)
 p = os.path.join(VERIF, "out", u + ".rs")
 open(p, "w").write(A.text())
